@@ -108,6 +108,11 @@ class Other:
         self.what = what
 
 
+class LayoutTest:
+    """a test on domains / shapes only (`self.domain.attrs == other.domain.attrs`): it does not depend on any cell value; both outcomes
+    are followed and must give the same cell"""
+
+
 class Interp:
     def __init__(self, methods, depth=0):
         self.methods = methods          # name -> FuncInfo of Factor
@@ -132,7 +137,26 @@ class Interp:
 
     # ---- statements -----------------------------------------------------------------------------------------------------------
     def block(self, stmts, env):
-        for st in stmts:
+        for i_, st in enumerate(stmts):
+            if isinstance(st, ast.If):
+                t_ = self.expr(st.test, env)
+                if isinstance(t_, Other) and isinstance(t_.what, str) and t_.what.startswith('domain'):
+                    t_ = LayoutTest()
+                if isinstance(t_, LayoutTest):
+                    rest = list(stmts[i_ + 1:])
+                    outs = []
+                    for arm in (st.body, st.orelse):
+                        e2 = dict(env)
+                        outs.append((self.block(list(arm) + rest, e2), e2))
+                    (r1, e1), (r2, e2) = outs
+                    if (r1 is None) != (r2 is None):
+                        raise AnalysisError('cell semantics: only one outcome of the layout test `%s` returns' % U(st.test)[:60])
+                    if r1 is None:
+                        raise AnalysisError('cell semantics: layout test `%s` without a result on either side' % U(st.test)[:60])
+                    if type(r1) is not type(r2) or not hasattr(r1, 'cell') or not same(r1.cell, r2.cell):
+                        raise AnalysisError('cell semantics: the two outcomes of the layout test `%s` give different cells (%s / %s)'
+                                            % (U(st.test)[:60], show(getattr(r1, 'cell', None)), show(getattr(r2, 'cell', None))))
+                    return r1
             if isinstance(st, ast.Return):
                 return self.expr(st.value, env)
             if isinstance(st, ast.Assign) and len(st.targets) == 1 and isinstance(st.targets[0], ast.Name):
@@ -212,6 +236,9 @@ class Interp:
             return self.binop(e.op, self.expr(e.left, env), self.expr(e.right, env), e)
         if isinstance(e, ast.BoolOp):
             vs = [self.expr(v, env) for v in e.values]
+            vs = [LayoutTest() if isinstance(v, Other) and isinstance(v.what, str) and v.what.startswith('domain') else v for v in vs]
+            if any(isinstance(v, LayoutTest) for v in vs) and all(isinstance(v, (LayoutTest, Mask)) for v in vs):
+                return LayoutTest()
             if all(isinstance(v, Mask) for v in vs):
                 return Mask(all(v.truth for v in vs) if isinstance(e.op, ast.And) else any(v.truth for v in vs))
             raise AnalysisError('cell semantics: boolean `%s`' % U(e)[:60])
@@ -253,6 +280,9 @@ class Interp:
             raise AnalysisError('cell semantics: order of two finite values `%s`' % U(e)[:60])
         if isinstance(op, (ast.Is, ast.IsNot)) and isinstance(b, Other) and b.what is None:
             return Mask(isinstance(op, ast.IsNot))
+        if isinstance(a, Other) and isinstance(b, Other) and isinstance(a.what, str) and isinstance(b.what, str) \
+                and a.what.startswith('domain') and b.what.startswith('domain'):
+            return LayoutTest()
         raise AnalysisError('cell semantics: comparison `%s`' % U(e)[:60])
 
     def binop(self, op, a, b, e):
